@@ -165,6 +165,9 @@ impl ClientConnection {
                 request::RequestCreationError::ExpectationFailed => {
                     ReadError::ExpectationFailed(version)
                 }
+                request::RequestCreationError::InvalidContentLength => {
+                    ReadError::WrongHeader(version)
+                }
             }
         })?;
 
